@@ -9,6 +9,8 @@ package gohbase
 // with no virtual time elapsed (deadline: exactly at the deadline).
 
 import (
+	"strconv"
+	"math/rand"
 	"context"
 	"errors"
 	"fmt"
@@ -304,4 +306,170 @@ func TestVerifC13(t *testing.T) {
 			}
 		}
 	}
+}
+
+
+// TestVerifC13Scripts: "all client states reachable by the fault scripts of C04 at the instant of cancellation": the seeded
+// fault scripts of the request-loop driver with every call under one context that is cancelled at a random instant while
+// the cluster is still in whatever state the script left it. At the next quiescent point every call must have returned,
+// and none of them later than the instant of the cancellation.
+func TestVerifC13Scripts(t *testing.T) {
+	out := os.Getenv("VERIF_OUT")
+	if out == "" {
+		t.Skip("VERIF_OUT not set")
+	}
+	seed, _ := strconv.ParseInt(os.Getenv("VERIF_SEED"), 10, 64)
+	nrand, _ := strconv.Atoi(os.Getenv("VERIF_N"))
+	rep := &simReport{Extra: map[string]any{}}
+	simOnStall("c13s_result.json", rep)
+	defer simWriteReport("c13s_result.json", rep)
+	rng := rand.New(rand.NewSource(seed*7919 + 13))
+	states := map[string]int{}
+	for k := 0; k < nrand; k++ {
+		queue := []int{1, 1, 4}[rng.Intn(3)]
+		nreg := 2 + rng.Intn(3)
+		g := 2 + rng.Intn(8)
+		nev := 1 + rng.Intn(6)
+		deadline := rng.Intn(3) == 0
+		name := fmt.Sprintf("scripts/%d/q=%d/regions=%d/callers=%d/events=%d/deadline=%v", k, queue, nreg, g, nev, deadline)
+		sr := rand.New(rand.NewSource(rng.Int63()))
+		verifsim.Bubble(t, func(t *testing.T) {
+			e := newRLEnv(queue, nreg)
+			servers := []string{"rs1", "rs2", "rs3"}
+			// the script's timing is drawn first: the context ends a short (sometimes long) while after the last event, when the
+			// calls started around it are most likely in the middle of something
+			gaps := make([]time.Duration, nev)
+			var when time.Duration
+			for i := range gaps {
+				gaps[i] = time.Duration(sr.Intn(30)) * time.Millisecond
+				when += gaps[i]
+			}
+			when += []time.Duration{0, time.Millisecond, 5 * time.Millisecond, 17 * time.Millisecond, 40 * time.Millisecond, 150 * time.Millisecond,
+				time.Second, 12 * time.Second}[sr.Intn(8)]
+			t0 := time.Now()
+			var cancel context.CancelFunc
+			if deadline {
+				e.ctx, cancel = context.WithDeadline(context.Background(), t0.Add(when))
+			} else {
+				e.ctx, cancel = context.WithCancel(context.Background())
+			}
+			defer cancel()
+			callers := func(n int) {
+				for i := 0; i < n; i++ {
+					p := rlPrefixes[sr.Intn(len(rlPrefixes))]
+					switch sr.Intn(3) {
+					case 0:
+						e.goGet(p)
+					case 1:
+						e.goPut(p)
+					case 2:
+						if queue > 1 {
+							e.goBatch(p, rlPrefixes[sr.Intn(len(rlPrefixes))])
+						} else {
+							e.goPut(p)
+						}
+					}
+				}
+			}
+			callers(g / 2)
+			var desc []string
+			for ev := 0; ev < nev; ev++ {
+				time.Sleep(gaps[ev])
+				desc = append(desc, rlApplyEvent(e, sr, servers))
+				if sr.Intn(2) == 0 {
+					callers(1 + sr.Intn(2))
+				}
+			}
+			// two scripts in three end with a fault that persists, so that the calls started now are still at it when the context ends
+			if regs := e.cl.OnlineRegions("t"); sr.Intn(3) > 0 && len(regs) > 0 {
+				r := regs[sr.Intn(len(regs))]
+				switch sr.Intn(7) {
+				case 0:
+					e.cl.StopServer(r.Host)
+					desc = append(desc, "P:server-down")
+				case 1:
+					e.cl.Lock()
+					e.cl.Servers[r.Host].DropOnAccept = true
+					e.cl.Unlock()
+					e.cl.ResetConns(r.Host)
+					desc = append(desc, "P:accept-then-drop")
+				case 2:
+					e.cl.Flap(r, verifsim.ExcNotServing, 1000)
+					desc = append(desc, "P:never-online")
+				case 3:
+					e.cl.Flap(r, verifsim.ExcTooBusy, 1000)
+					desc = append(desc, "P:retry-later")
+				case 4:
+					e.cl.Lock()
+					e.cl.MetaMode = "silent"
+					e.cl.Unlock()
+					e.cl.ResetConns("ms")
+					e.cl.Move(r, servers[sr.Intn(3)])
+					desc = append(desc, "P:meta-silent+move")
+				case 5:
+					e.cl.Lock()
+					e.cl.Rules = append(e.cl.Rules, func(c *verifsim.Cluster, rs *verifsim.RS, sc *verifsim.ServerConn, req *verifsim.Request, name []byte) *verifsim.Directive {
+						if rs.Addr == r.Host && !verifsim.IsProbe(req) {
+							return &verifsim.Directive{Silent: true}
+						}
+						return nil
+					})
+					e.cl.Unlock()
+					desc = append(desc, "P:silent-server")
+				case 6:
+					e.cl.MoveSlowly(r, servers[sr.Intn(3)])
+					desc = append(desc, "P:meta-stale")
+				}
+			}
+			callers(g - g/2)
+			if rest := when - time.Since(t0); rest > 0 {
+				time.Sleep(rest)
+			}
+			synctest.Wait() // a quiescent point: whoever is still there is blocked on something
+			e.mu.Lock()
+			blocked := 0
+			for _, cc := range e.calls {
+				if !cc.returned {
+					blocked++
+				}
+			}
+			e.mu.Unlock()
+			endAt := time.Now()
+			if !deadline {
+				cancel()
+			}
+			synctest.Wait()
+			e.mu.Lock()
+			for _, cc := range e.calls {
+				switch {
+				case !cc.returned:
+					rep.bad("cancel-ignored:script", "%s (events %v): %s %s is still blocked after the context of all calls ended", name, desc, cc.kind, cc.id)
+				case cc.at.After(endAt):
+					rep.bad("cancel-slow:script", "%s (events %v): %s %s returned %v after the context ended", name, desc, cc.kind, cc.id, cc.at.Sub(endAt))
+				}
+			}
+			e.mu.Unlock()
+			states[fmt.Sprint(desc)]++
+			rep.Scenarios++
+			if blocked > 0 {
+				rep.Distinct++ // (scenarios in which the cancellation met at least one blocked call)
+			}
+			// tear down on a healthy cluster
+			e.cl.Lock()
+			for _, rs := range e.cl.Servers {
+				rs.Up, rs.RefuseDial, rs.DropOnAccept = true, false, false
+			}
+			e.cl.Rules = nil
+			e.cl.MetaMode = ""
+			for _, r := range e.cl.Regions {
+				r.MetaHost, r.Flaps = "", 0
+			}
+			e.cl.Unlock()
+			time.Sleep(5 * time.Minute)
+			e.c.Close()
+			time.Sleep(2 * time.Minute)
+			synctest.Wait()
+		})
+	}
+	rep.Extra["distinct_event_sequences"] = len(states)
 }
